@@ -31,7 +31,47 @@ use pushr::push::random::CodeGenerator;
 use pushr::push::state::PushState;
 use std::panic;
 
-pub const SUITES: &[(&str, fn(&Sx) -> Sx)] = &[("rand", rand)];
+pub const SUITES: &[(&str, fn(&Sx) -> Sx)] = &[("rand", rand), ("rand.newnames", newnames)];
+
+/// Suite "rand.newnames": (profile () n) -> (outside first_outside notname first_notname)
+/// n draws of CodeGenerator::new_random_name(); `outside` counts names that are not two or more runs of
+/// ASCII lower-case letters joined by '-' (what names::Generator::default() yields); `notname` counts names
+/// that PushParser does not read back as the identifier itself.
+fn newnames(c: &Sx) -> Sx {
+    let go = || -> Option<Sx> {
+        let c = c.as_l()?;
+        let n = c.get(2)?.as_z()?;
+        let mut is = InstructionSet::new();
+        is.load();
+        let (mut outside, mut notname) = (0i128, 0i128);
+        let (mut first_outside, mut first_notname) = (String::new(), String::new());
+        let mut st = PushState::new();
+        for _ in 0..n {
+            let name = CodeGenerator::new_random_name();
+            let parts: Vec<&str> = name.split('-').collect();
+            let shaped = parts.len() >= 2 && parts.iter().all(|p| !p.is_empty() && p.bytes().all(|b| b.is_ascii_lowercase()));
+            if !shaped {
+                if outside == 0 { first_outside = name.clone(); }
+                outside += 1;
+            }
+            if !shaped {
+                // only a name outside the assumed alphabet can lex as something else
+                st.exec_stack.flush();
+                PushParser::parse_program(&mut st, &is, &name);
+                let back = match (st.exec_stack.size(), st.exec_stack.get(0)) {
+                    (1, Some(Item::Identifier { name: n2 })) => *n2 == name,
+                    _ => false,
+                };
+                if !back {
+                    if notname == 0 { first_notname = name.clone(); }
+                    notname += 1;
+                }
+            }
+        }
+        Some(Sx::L(vec![Sx::Z(outside), Sx::str(&first_outside), Sx::Z(notname), Sx::str(&first_notname)]))
+    };
+    go().unwrap_or_else(Sx::bad)
+}
 
 fn names_of(s: &Sx) -> Option<Vec<String>> {
     s.as_l()?.iter().map(|n| n.as_string()).collect()
@@ -71,6 +111,25 @@ fn exercise(it: &Item, steps: i128, deny: &[String]) -> i128 {
         let _ = st.to_string();
     });
     if r.is_ok() { 1 } else { 0 }
+}
+
+/// History: before the observed draw the SAME PushState has already served a scalar draw under other bounds
+/// (far away from the case's); a generator must read the configuration that is current at the draw.
+fn warm_up(st: &mut PushState) {
+    let c = &st.configuration;
+    let saved = (c.min_random_integer, c.max_random_integer, c.min_random_float, c.max_random_float);
+    st.configuration.min_random_integer = 1_000_000_000;
+    st.configuration.max_random_integer = 1_000_000_007;
+    st.configuration.min_random_float = 1.0e30;
+    st.configuration.max_random_float = 2.0e30;
+    let _ = panic::catch_unwind(panic::AssertUnwindSafe(|| {
+        let _ = CodeGenerator::random_integer(st);
+        let _ = CodeGenerator::random_float(st);
+    }));
+    st.configuration.min_random_integer = saved.0;
+    st.configuration.max_random_integer = saved.1;
+    st.configuration.min_random_float = saved.2;
+    st.configuration.max_random_float = saved.3;
 }
 
 fn all_same(dets: Vec<Sx>) -> Sx {
@@ -133,13 +192,15 @@ fn rand(c: &Sx) -> Sx {
                     draws.push(Sx::opt(r, |v| Sx::list(v.values.iter(), |z| Sx::z(*z))));
                 }
                 7 => {
-                    let st = sx_to_state(a.get(0)?)?;
+                    let mut st = sx_to_state(a.get(0)?)?;
+                    warm_up(&mut st);
                     let r = CodeGenerator::random_float(&st);
                     dets.push(Sx::b(r.is_some()));
                     draws.push(Sx::opt(r, f32_sx));
                 }
                 8 => {
-                    let st = sx_to_state(a.get(0)?)?;
+                    let mut st = sx_to_state(a.get(0)?)?;
+                    warm_up(&mut st);
                     let r = CodeGenerator::random_integer(&st);
                     dets.push(Sx::b(r.is_some()));
                     draws.push(Sx::opt(r, |z| Sx::z(z)));
@@ -161,6 +222,7 @@ fn rand(c: &Sx) -> Sx {
                     let deny = names_of(a.get(4)?)?;
                     let mut is = InstructionSet::new();
                     is.load();
+                    if name == "INTEGER.RAND" || name == "FLOAT.RAND" { warm_up(&mut st); }
                     let before = target_size(&st, &name)?;
                     (is.get_instruction(&name)?.execute)(&mut st, &ic);
                     let pushed = target_size(&st, &name)? > before;
